@@ -77,7 +77,9 @@ static SAVED_OUT: AtomicUsize = AtomicUsize::new(1);
 /// the original stdout for the harness's own output.
 pub fn silence_stdio() {
     unsafe {
-        let saved = libc::dup(1);
+        // close-on-exec: subprocesses started by this shard (tftpd, tftpc) must not inherit the result pipe, otherwise a
+        // killed shard would leave the pipe open in its orphans and the parent would wait for EOF forever
+        let saved = libc::fcntl(1, libc::F_DUPFD_CLOEXEC, 3);
         let devnull = libc::open(b"/dev/null\0".as_ptr() as *const libc::c_char, libc::O_WRONLY);
         if saved >= 0 && devnull >= 0 {
             libc::dup2(devnull, 1);
@@ -107,6 +109,17 @@ pub fn outln(s: &str) {
     let mut t = s.to_string();
     t.push('\n');
     out_write(&t);
+}
+
+/// Make a child process die with this process (a shard killed by the watchdog must not leave servers behind).
+pub fn die_with_parent(cmd: &mut std::process::Command) {
+    use std::os::unix::process::CommandExt;
+    unsafe {
+        cmd.pre_exec(|| {
+            libc::prctl(libc::PR_SET_PDEATHSIG, libc::SIGKILL);
+            Ok(())
+        });
+    }
 }
 
 // ---------------------------------------------------------------- scratch dirs
